@@ -56,7 +56,10 @@ def generate(seed, tier):
                 ops.append({'op': 'names_mutate', 'how': rng.choice(['sort', 'reverse', 'clear', 'append'])})
         elif r < 0.27 and 'fill' in ops[0]['op']:
             ops.append({'op': 'append', 'group': rng.choice(groups), 'series': rng.choice(names), 'value': round(rng.uniform(-9, 9), 2)})
-        elif r < 0.33:
+        elif r < 0.30:
+            ops.append({'op': 'get_missing', 'series': rng.choice(['no_such_series', 'GOOD__SUP_GOODS', 'K', 'v99']),
+                        'cutoff': rng.choice([None, 0, 2]), 'group': rng.choice(groups)})
+        elif r < 0.36:
             if not has_base:
                 vl = rng.sample(['t', 'x', 'y', 'z'], rng.randint(1, 4))
                 n = rng.randint(1, 4)
@@ -193,6 +196,19 @@ def execute(case):
                     pass
             if cutoff is None and not flags['suppress']:
                 stats['probes']['read_without_cutoff_then_' + str(th)] = 1
+        elif op == 'get_missing':
+            if o['series'] in ref[o['group']]:
+                continue
+            try:
+                got = model.GetTimeSeries(o['series'], cutoff=o['cutoff'], group_of_series=o['group'])
+                viol.append(core.violation(ID, 'missing-series-read-did-not-raise', 'missing-series-read-did-not-raise',
+                                           op=o, returned=list(got)[0:5]))
+                break
+            except KeyError:
+                stats['probes']['missing_series_read'] = 1
+            except Exception as ex:   # noqa
+                viol.append(core.violation(ID, 'read-raised', 'read-raised:' + type(ex).__name__, op=o, flags=dict(flags)))
+                break
         elif op == 'names_mutate':
             lst = model.EquationSolver.TimeSeries.GetSeriesList()
             if o['how'] == 'sort':
